@@ -616,13 +616,40 @@ func checkC12(p *Prog, r *Report) {
 			writes = append(writes, c)
 		}
 		ok := len(writes) > 0
+		g := p.CFG(f)
+		isReg := func(n ast.Node) bool {
+			return p.nodeHasCall(n, func(c *ast.CallExpr) bool {
+				nm := p.CalleeName(c)
+				return nm == "ice.udpMuxedConn.registerAddress" || nm == "ice.udpMuxedConn.addAddress"
+			})
+		}
+		// an edge on which the address is known to be registered already needs no registration
+		needsReg := func(e *Edge) bool {
+			for _, ft := range p.FactsOfCond(e.Cond, e.Val) {
+				if c, isC := unparen(ft.X).(*ast.CallExpr); isC && ft.Op == "truth" && ft.Val && p.CalleeName(c) == "ice.udpMuxedConn.containsAddress" {
+					return false
+				}
+			}
+			return true
+		}
 		for _, w := range writes {
-			if !p.MustPrecede(f, w, func(n ast.Node) bool {
-				return p.nodeHasCall(n, func(c *ast.CallExpr) bool {
-					nm := p.CalleeName(c)
-					return nm == "ice.udpMuxedConn.registerAddress" || nm == "ice.udpMuxedConn.addAddress"
-				})
-			}) {
+			loc, okL := g.Locate(w)
+			if !okL {
+				ok = false
+				continue
+			}
+			before := false
+			for i := 0; i < loc.I; i++ {
+				before = before || isReg(loc.B.Nodes[i])
+			}
+			if before {
+				continue
+			}
+			if loc.B == g.Entry {
+				ok = false
+				continue
+			}
+			if _, found := g.PathAvoiding(Loc{g.Entry, 0}, isReg, func(b *Block) bool { return b == loc.B }, needsReg); found {
 				ok = false
 			}
 		}
